@@ -39,6 +39,8 @@ def run(pid, replay=None):
     if replay:
         case = json.load(open(replay))["case"]
         edges = [case["case"]] if case.get("kind") == "edge" else []
+        if case.get("kind") == "updmgr":
+            edges = []
         hists = [case["case"]] if case.get("kind") == "path" else []
         r = e = None
     else:
@@ -84,6 +86,11 @@ def run(pid, replay=None):
                 drift += 1
                 if drift <= 5:
                     log("DRIFT module=SeqBox case=%d diff=%s edge=%s got=%s" % (o["case"], d, json.dumps(edges[o["case"]]), json.dumps(o["got"])))
+    # manager level: main/channel worker bodies, queues, differences (UpdatesMgr.tla / UpdatesProp.tla Check=C01)
+    mgr = None
+    if not replay or case.get("kind") == "updmgr":
+        import c_updmgr
+        mgr = c_updmgr.part(pid, V, replay=case if replay else None)
     nontriv = len([e_ for e_ in edges if e_["from"] != e_["to"]])
     cov = {
         "states": (r.distinct if r else 0) + (e.distinct if e else 0) + jst or 1,
@@ -98,6 +105,14 @@ def run(pid, replay=None):
         "model_states_exhaustive": r.distinct if r else 0,
         "drift_edges": drift,
     }
+    if mgr:
+        cov["states"] += mgr["states"]
+        cov["transitions"] += mgr["transitions"]
+        cov["traces_validated_against_impl"] += mgr["traces_validated_against_impl"]
+        cov["evaluations"] += mgr["evaluations"]
+        cov["distinct_nontrivial"] += mgr["distinct_nontrivial"]
+        cov["samples"] = (cov["samples"] + mgr["samples"])[:3]
+        cov["manager_level"] = {k: mgr[k] for k in ("behaviours", "crash_traces", "drift_bodies", "bodies_compared", "model_states_exhaustive")}
     return V.finish("model_checking", cov, [
         "SeqProp.tla is the verdict oracle; SeqBox.tla mismatches are reported as DRIFT only",
         "updates with pts/qts/seq position 0 are outside the server log model"])
